@@ -369,7 +369,7 @@ type c12 struct{}
 
 func init() {
 	register(c12{})
-	expectedProbes["C12"] = []string{"pair:relative", "pair:root-relative", "pair:absolute", "pair:fragment-only", "pair:empty", "pair:dotdot", "pair:escaped", "pair:non-ascii", "pair:climbs-above-base",
+	expectedProbes["C12"] = []string{"pair:relative", "pair:root-relative", "pair:absolute", "pair:fragment-only", "pair:empty", "pair:dotdot", "pair:escaped", "pair:non-ascii", "pair:climbs-above-base", "pair:absolute-other-scheme", "pair:escaped-percent",
 		"base:file", "base:http", "base:fs-root", "world-run", "world-request-sets-equal"}
 }
 
@@ -383,7 +383,7 @@ func (c12) Rule() string {
 		"Non-trivial: every pair; distinct by (base scheme and depth, reference form, segment classes)."
 }
 
-var c12Segs = []string{"a", "b.c", ".", "..", "p%20q", "é", "s t", "v1.0"}
+var c12Segs = []string{"a", "b.c", ".", "..", "p%20q", "é", "s t", "v1.0", "x%25y", "%2541"}
 var c12Bases = []string{
 	"file:///base.json", "file:///d1/base.json", "file:///d1/d2/base.json", "file:///d1/d2/d3/base.json",
 	"http://h.test/base.json", "http://h.test/x/base.json", "https://s.test/x/y/base.json", "http://h.test:8080/x/y/z/base.json",
@@ -443,6 +443,13 @@ func c12Spell(base string, segs []string, form int) string {
 		bu, _ := url.Parse(base)
 		if len(segs)%2 == 0 {
 			return "/" + p + frag // root-relative
+		}
+		switch len(p) % 3 {
+		case 0: // absolute, other scheme than the base
+			if bu.Scheme == "file" {
+				return "http://other.test/abs/" + p + frag
+			}
+			return "file:///abs/" + p + frag
 		}
 		return bu.Scheme + "://" + bu.Host + "/abs/" + p + frag // absolute
 	}
@@ -569,6 +576,14 @@ func (c12) Run(sc *Scenario) *Verdict {
 				v.probe("pair:climbs-above-base")
 				cls["climb"] = true
 			}
+		}
+		if form == "absolute" && !strings.HasPrefix(ref, bu.Scheme+":") {
+			v.probe("pair:absolute-other-scheme")
+			cls["xscheme"] = true
+		}
+		if strings.Contains(ref, "%25") {
+			v.probe("pair:escaped-percent")
+			cls["pct"] = true
 		}
 		if strings.Contains(ref, "%") {
 			v.probe("pair:escaped")
